@@ -61,6 +61,7 @@ def run(chk):
         docs.append(("defaults", gen.hoist_defaults(rng, gen.respell(rng, base, p=0.3))))
         docs += [("mut-value", gen.mutate_value(rng, base)[1]) for _ in range(3)]
         docs += [("mut-struct", gen.mutate_structure(rng, base)[1]) for _ in range(2)]
+        docs += [("mut-target", m) for _, m in gen.mutate_targeted(rng, base)[:8]]
         g0 = None
         for kind, d in docs:
             g = attempt("fromdict:" + kind, lambda: demes.Graph.fromdict(copy.deepcopy(d)), d)
